@@ -5,6 +5,7 @@ import (
 	"context"
 	"encoding/json"
 	"fmt"
+	"os"
 	"regexp"
 	"sort"
 	"strings"
@@ -226,7 +227,7 @@ func TestPropGc(t *testing.T) {
 		srcs := make([]string, n)
 		for i := range progs {
 			progs[i] = goprog.Gen(t, off)
-			if rapid.IntRange(0, 3).Draw(t, "closureform") == 0 {
+			if rapid.IntRange(0, 3).Draw(t, "closureform") == 0 || os.Getenv("VERIF_ALL_CLOSURE_FORM") != "" {
 				// the same program with every function as a function literal of main
 				progs[i].Src = goprog.AsClosures(progs[i].Src)
 				progs[i].Features = append(progs[i].Features, "closure_form")
